@@ -2,4 +2,4 @@
 # usage: mutwt.sh <seeded-name>   -> creates /tmp/wt/m-<name> (scratch worktree of /repo with the seeded patch applied); mutwt.sh -r <name> removes it
 if [ "$1" = "-r" ]; then git -C /repo worktree remove --force /tmp/wt/m-$2; exit 0; fi
 mkdir -p /tmp/wt
-git -C /repo worktree add -q --detach /tmp/wt/m-$1 HEAD && git -C /tmp/wt/m-$1 apply /verif/seeded/$1/patch.diff && echo /tmp/wt/m-$1
+git -C /repo worktree add -q --detach /tmp/wt/m-$1 HEAD && (git -C /tmp/wt/m-$1 apply /verif/seeded/$1/patch.diff || git -C /tmp/wt/m-$1 apply --3way /verif/seeded/$1/patch.diff) && echo /tmp/wt/m-$1
